@@ -150,6 +150,15 @@ func Run(r *common.Run) error {
 		}
 		return nil
 	}
+	// free-running concurrent use (the race-detector run consists of this and the corpora)
+	r.Mark("case concurrent 0")
+	runConcurrent(r, 6, r.Pick(15, 60))
+	if r.Race() {
+		for k := 1; k <= 6; k++ {
+			r.Mark("case concurrent %d", k)
+			runConcurrent(r, 2+k, 40)
+		}
+	}
 	for n, c := range sessCorpus {
 		r.Mark("case sess-corpus %d", n)
 		runSess(r, parseReqs(c.reqs), strings.Split(c.sched, ","), "sess-corpus")
@@ -157,6 +166,10 @@ func Run(r *common.Run) error {
 	for n, c := range rcptCorpus {
 		r.Mark("case rcpt-corpus %d", n)
 		runRcpt(r, parseIDs(c.ids), strings.Split(c.sched, ","), "rcpt-corpus")
+	}
+	if r.Race() {
+		r.Notes = append(r.Notes, "race-detector run: concurrent scenarios and corpora only")
+		return nil
 	}
 	// schedules generated from the Lean LTS by the driver
 	nGen := 0
